@@ -146,7 +146,8 @@ pub fn sweep_c04(tier: &str, seed: u64) -> (usize, Vec<String>) {
     let mut buf_g: StripedSequence<Dna, U32> = Default::default();
     let mut buf_a: StripedSequence<Dna, U32> = Default::default();
     let mut buf_d: StripedSequence<Dna, U32> = Default::default();
-    for rep in 0..reps { for &l in &lens {
+    let mut lens2 = lens.clone(); lens2.extend_from_slice(&[0, 5, 0, 2050, 0, 33]);   // empty sequence into a reused, non-empty buffer
+    for rep in 0..reps { for &l in &lens2 {
         let l = if rep > 0 && rng.below(5) == 0 { 0 } else { l };
         let wild = rng.below(3) == 0;
         let s = rand_syms::<Dna>(&mut rng, l, wild);
@@ -310,11 +311,13 @@ pub fn sweep_c08(tier: &str, seed: u64) -> (usize, Vec<String>) {
     for rep in 0..reps {
         let m = 1 + rng.below(if rep % 3 == 0 { 30 } else { 8 });
         let nsites = 2 + rng.below(6);
-        let pssm = if rep % 2 == 0 { motif_from_sites(&mut rng, m, nsites) } else { let fin = rng.below(3) == 0; rand_pssm::<Dna>(&mut rng, m, !fin).1 };
+        // rep % 4: 0 motif from sites (N = -inf), wildcards in the sequence; 1 and 3 finite wildcard column, wildcards in the
+        // sequence; 2 N = -inf, no wildcard
+        let pssm = if rep % 4 == 0 { motif_from_sites(&mut rng, m, nsites) } else { rand_pssm::<Dna>(&mut rng, m, rep % 4 == 2).1 };
         let dm = pssm.to_discrete();
         let l = m + rng.below(200);
         // the sequence contains the consensus (maximum-scoring) word and wildcards
-        let mut s = rand_syms::<Dna>(&mut rng, l, rep % 4 == 0);
+        let mut s = rand_syms::<Dna>(&mut rng, l, rep % 4 != 2);
         if l >= 2 * m { for j in 0..m { let best = (0..4).max_by(|a, b| pssm.matrix()[j][*a].partial_cmp(&pssm.matrix()[j][*b]).unwrap()).unwrap(); s[m / 2 + j] = Dna::symbols()[best]; } }
         let mut st: StripedSequence<Dna, U32> = Pipeline::<Dna, _>::generic().stripe(&s[..]);
         st.configure(&pssm);
